@@ -190,3 +190,60 @@ Definition conserved_c (s : sys) : Prop :=
 Definition G1 (s : sys) : Prop :=
   inv1 s /\ flags1 (fst s) /\ nolib (fst s) /\ fresh s /\ conserved_c s.
 
+
+Arguments cnt : simpl never.
+Ltac cs I1 := let x := fresh "x" in intros x; specialize (I1 x); revert I1; unfold sqc, sq_countable, smqg, cq; cbn; rewrite ?map_app, ?cnt_app; cbn; rewrite ?cnt_cons, ?cnt_nil; try lia.
+Ltac gn := repeat (cbn [app gout cb] in *; rewrite ?gfold_app, ?gfold_cons, ?gfold_nil in * ).
+(* the ghost fields that the marks of the write loop can touch *)
+Lemma wloop_g1 q sched st g :
+  let r := wloop q sched st in
+  let st' := fst (fst (fst r)) in
+  let g' := gfold g (snd (fst (fst r))) in
+  (forall x, (cnt (map q_gid (filter cq q)) x + cnt (smqg st) x + cnt (g_plain g) x)%nat =
+             (cnt (sqc st') x + cnt (smqg st') x + cnt (g_plain g') x)%nat) /\
+  g_subm g' = g_subm g /\ g_done g' = g_done g /\ g_disc_fresh g' = g_disc_fresh g /\ g_disc_resent g' = g_disc_resent g /\
+  gv1 g' = gv1 g /\
+  (Forall (fun e => q_owner e <> OLib) q -> Forall (fun e => q_owner e <> OLib) (sq st')) /\
+  (Forall (fun e => q_owner e <> OLib) q -> Forall (fun e => s_owner e = OUser) (smq st) ->
+   Forall (fun e => s_owner e = OUser) (smq st')).
+Proof.
+  revert sched st g; induction q as [|e rest IH]; intros sched st g; cbn zeta.
+  - cbn [wloop fst snd]. rewrite gfold_nil. unfold sqc, sq_countable, smqg. cbn.
+    repeat split; auto.
+  - cbn [wloop].
+    destruct (next_send sched (zlen (q_text e) - q_written e)) as [[ret err] sched'].
+    destruct (ret =? zlen (q_text e) - q_written e).
+    + destruct (countable (q_owner e) && sm_enabled (set_sq st rest)) eqn:Ec.
+      * apply andb_true_iff in Ec as [Ec1 Ec2].
+        match goal with |- context[wloop rest sched' ?s] =>
+          specialize (IH sched' s (gfold g [OG (GDone (q_gid e) true)]));
+          destruct (wloop rest sched' s) as [[[st2 o] er] sl] end.
+        cbn [fst snd] in *. cbn zeta in IH.
+        destruct IH as (I1 & I2 & I3 & I4 & I5 & I6 & I7 & I8).
+        gn. cbn [gapply] in *.
+        repeat split; try assumption.
+        -- unfold cq in *. cbn [filter]. rewrite Ec1. cs I1.
+        -- intros F. inversion F; subst. auto.
+        -- intros F F2. inversion F; subst. apply I8; [assumption|]. cbn. apply Forall_app. split; [assumption|].
+           constructor; [|constructor]. cbn. destruct (q_owner e); try reflexivity; [contradiction|discriminate].
+      * match goal with |- context[wloop rest sched' ?s] =>
+          specialize (IH sched' s (gfold g (if countable (q_owner e) then [OG (GDone (q_gid e) false)] else [])));
+          destruct (wloop rest sched' s) as [[[st2 o] er] sl] end.
+        cbn [fst snd] in *. cbn zeta in IH.
+        destruct IH as (I1 & I2 & I3 & I4 & I5 & I6 & I7 & I8).
+        destruct (countable (q_owner e)) eqn:Eq.
+        -- cbn in Ec. gn. cbn [gapply] in *.
+           repeat split; try assumption.
+           ++ unfold cq in *. cbn [filter]. rewrite Eq. cs I1.
+           ++ intros F. inversion F; subst. auto.
+           ++ intros F F2. inversion F; subst. apply I8; assumption.
+        -- gn.
+           repeat split; try assumption.
+           ++ unfold cq in *. cbn [filter]. rewrite Eq. cs I1.
+           ++ intros F. inversion F; subst. auto.
+           ++ intros F F2. inversion F; subst. apply I8; assumption.
+    + destruct (0 <? ret); cbn [fst snd]; gn;
+        (split; [intros x; unfold sqc, sq_countable, smqg, cq; cbn; destruct (countable (q_owner e)); reflexivity|];
+         repeat (split; [reflexivity|]);
+         split; [intros F; inversion F; subst; cbn; constructor; auto | intros F F2; exact F2]).
+Qed.
